@@ -751,6 +751,49 @@ def isAllocaCall : Node → M Bool
   | .null => nullDeref "node->lhs"
   | _ => pure false
 
+/-- the `call` and what follows it in the `ND_FUNCALL` arm -/
+def callTail (env : Env) (retBuffer : Option Var) (ty : Ty) (stackArgs : Int) : M Unit := do
+  -- (the note records the class of the returned value; it is not printed)
+  if ty.kind == .ldouble then emit (.insA ⟨"call", [.s "*%r10"]⟩ "ret:f80")
+  else emit (ins1 "call" (.s "*%r10"))
+  emit (ins2 "add" (.i (stackArgs * 8)) rsp)
+  addDepth (-stackArgs)
+  -- It looks like the most significant 48 or 56 bits in RAX may
+  -- contain garbage if a function return type is short or bool/char,
+  -- respectively. We clear the upper bits here.
+  match ty.kind with
+  | .bool => emit (ins2 "movzx" (.r "%al") (.r "%eax"))
+  | .char =>
+    if ty.isUnsigned then emit (ins2 "movzbl" (.r "%al") (.r "%eax"))
+    else emit (ins2 "movsbl" (.r "%al") (.r "%eax"))
+  | .short =>
+    if ty.isUnsigned then emit (ins2 "movzwl" (.r "%ax") (.r "%eax"))
+    else emit (ins2 "movswl" (.r "%ax") (.r "%eax"))
+  | _ =>
+    -- If the return type is a small struct, a value is returned
+    -- using up to two registers.
+    match retBuffer with
+    | some rb =>
+      if ty.size ≤ 16 then do
+        copyRetBuffer env rb
+        emit (ins2 "lea" (rbp (env.off rb)) rax)
+      else pure ()
+    | none => pure ()
+
+/-- the `ND_FUNCALL` arm after `push_args`: callee address, register loading, call -/
+def callRest (env : Env) (i : NInfo) (fn : M Unit) (retBuffer : Option Var) (args : List Arg)
+    (stackArgs : Int) : M Unit := do
+  fn
+  -- If the return type is a large struct/union, the caller passes
+  -- a pointer to a buffer as if it were the first argument.
+  let big ← bigRet i retBuffer
+  let gp0 : Int ← if big then do popGp 0; pure 1 else pure 0
+  let gf ← popArgs env args gp0 0
+  emit (ins2 "mov" rax (.r "%r10"))
+  emit (ins2 "mov" (.i gf.2) rax)
+  let ty ← needTy "node->ty" i.ty
+  callTail env retBuffer ty stackArgs
+
 def funcallArm (env : Env) (i : NInfo) (isAlloca : M Bool) (fn : M Unit) (retBuffer : Option Var)
     (args : List Arg) : M Unit := do
   if ← isAlloca then do
@@ -761,41 +804,7 @@ def funcallArm (env : Env) (i : NInfo) (isAlloca : M Bool) (fn : M Unit) (retBuf
     builtinAlloca env
   else do
     let stackArgs ← pushArgs env i retBuffer args
-    fn
-    -- If the return type is a large struct/union, the caller passes
-    -- a pointer to a buffer as if it were the first argument.
-    let big ← bigRet i retBuffer
-    let gp0 : Int ← if big then do popGp 0; pure 1 else pure 0
-    let (_, fp) ← popArgs env args gp0 0
-    emit (ins2 "mov" rax (.r "%r10"))
-    emit (ins2 "mov" (.i fp) rax)
-    -- (the note records the class of the returned value; it is not printed)
-    let ty ← needTy "node->ty" i.ty
-    if ty.kind == .ldouble then emit (.insA ⟨"call", [.s "*%r10"]⟩ "ret:f80")
-    else emit (ins1 "call" (.s "*%r10"))
-    emit (ins2 "add" (.i (stackArgs * 8)) rsp)
-    addDepth (-stackArgs)
-    -- It looks like the most significant 48 or 56 bits in RAX may
-    -- contain garbage if a function return type is short or bool/char,
-    -- respectively. We clear the upper bits here.
-    match ty.kind with
-    | .bool => emit (ins2 "movzx" (.r "%al") (.r "%eax"))
-    | .char =>
-      if ty.isUnsigned then emit (ins2 "movzbl" (.r "%al") (.r "%eax"))
-      else emit (ins2 "movsbl" (.r "%al") (.r "%eax"))
-    | .short =>
-      if ty.isUnsigned then emit (ins2 "movzwl" (.r "%ax") (.r "%eax"))
-      else emit (ins2 "movswl" (.r "%ax") (.r "%eax"))
-    | _ =>
-      -- If the return type is a small struct, a value is returned
-      -- using up to two registers.
-      match retBuffer with
-      | some rb =>
-        if ty.size ≤ 16 then do
-          copyRetBuffer env rb
-          emit (ins2 "lea" (rbp (env.off rb)) rax)
-        else pure ()
-      | none => pure ()
+    callRest env i fn retBuffer args stackArgs
 
 def casArm (env : Env) (addr : M Unit) (addrTy : Option Ty) (old : M Unit) (oldTy : Option Ty)
     (new : M Unit) (newTy : Option Ty) : M Unit := do
